@@ -14,7 +14,8 @@ MCVals == {"x", "y"}
 MCIDOrder == <<"P1", "P2", "P3", "P4", "P5", "W1", "W2", "W3", "W4", "W5", "A101", "A102", "A103",
                "A1", "A2", "A3", "A4", "A5", "R1", "R2", "R3">>
 
-OT(h, w, n, t) == [k \in OSMKeys |-> CASE k = "highway" -> h [] k = "wikidata" -> w [] k = "name" -> n [] k = "type" -> t]
+OT(h, w, n, t) == [k \in OSMKeys |-> CASE k = "highway" -> h [] k = "wikidata" -> w [] k = "name" -> n [] k = "type" -> t [] OTHER -> "-"]
+With(t, k, v) == [t EXCEPT ![k] = v]
 NoOT == OT("-", "-", "-", "-")
 M(t, id, role) == [t |-> t, id |-> id, role |-> role]
 Rel(ms, t) == [type |-> "r", members |-> ms, tags |-> t]
